@@ -7,10 +7,10 @@ fn r(h: &'static str, bound: &str, cases: u64, cex: Option<String>) -> Report { 
 /// resolving make_relative_path(base, target) against the directory of base gives target
 pub fn relpath() -> Report {
     let depth = if crate::deep() { 5 } else { 4 };
-    let bound_s = format!("all pairs of '/'-separated absolute or relative paths of 1..{depth} components over names {{a,b,c}} (plus '\\\\'-separated variants of the base)");
+    let bound_s = format!("all pairs of '/'-separated absolute or relative paths of 1..{depth} components over names {{a,b,ab}} -- one name a string prefix of another -- (plus '\\\\'-separated variants of the base)");
     let bound = bound_s.as_str();
     let mut cases = 0u64;
-    let names = ["a", "b", "c"];
+    let names = ["a", "b", "ab"];
     let mut paths: Vec<Vec<&str>> = vec![]; let mut layer: Vec<Vec<&str>> = vec![vec![]];
     for _ in 0..depth { let mut next = vec![]; for l in &layer { for n in names { let mut t = l.clone(); t.push(n); next.push(t); } } paths.extend(next.iter().cloned()); layer = next; }
     for abs in [true, false] { for sep in ["/", "\\"] { for b in &paths { for t in &paths {
@@ -31,7 +31,7 @@ pub fn relpath() -> Report {
 
 // ------------------------------------------------------------------ C18
 pub fn discover() -> Report {
-    let bound = "texts of <= 4 lines drawn from {code, both comment forms, indented / mid-line look-alikes, empty URL}, \\n and \\r\\n endings, with/without final newline; data URLs of maps with 0..2 tokens, placed in a comment and rediscovered; detection (slice and reader) on the serialisation of regular maps (3 sources, every contents subset incl. null entries, names, root, ignore list, range token on/off), index maps over them with an unresolved section, Hermes maps with null / partial metadata and contents";
+    let bound = "large texts (5 000 / 9 000 / 70 000 bytes in lines of 40 / 8 190 / 8 192 bytes) with the comment on the first / a middle / the last line / twice / absent, via slice and reader; texts of <= 4 lines drawn from {code, both comment forms, indented / mid-line look-alikes, empty URL}, \\n and \\r\\n endings, with/without final newline; data URLs of maps with 0..2 tokens, placed in a comment and rediscovered; detection (slice and reader) on the serialisation of regular maps (3 sources, every contents subset incl. null entries, names, root, ignore list, range token on/off), index maps over them with an unresolved section, Hermes maps with null / partial metadata and contents";
     let mut cases = 0u64;
     let lines: Vec<(&str, Option<(&str, bool)>)> = vec![
         ("var a = 1;", None), ("//# sourceMappingURL=foo.js.map", Some(("foo.js.map", false))), ("//@ sourceMappingURL=old.map  ", Some(("old.map", true))),
@@ -47,6 +47,25 @@ pub fn discover() -> Report {
         let g2 = got.as_ref().map(|x| match x { SourceMapRef::Ref(u) => (u.as_str(), false), SourceMapRef::LegacyRef(u) => (u.as_str(), true) });
         crate::witness(want.is_some());
         if g2 != want { return r("discover", bound, cases, Some(format!("text {s:?}: discovered {g2:?}, the first line beginning with a sourceMappingURL comment gives {want:?}"))); }
+    } } }
+    // large files: the comment on the first / a middle / the last line of a text of 5 000 .. 70 000 bytes (beyond any read-buffer or "tail" size), two comments (the first wins),
+    // through the slice and the reader entry point
+    for total in [5_000usize, 9_000, 70_000] { for filler in [40usize, 8_190, 8_192] { for place in 0..5usize {
+        cases += 1;
+        let nlines = (total / (filler + 1)).max(3);
+        let mut ls: Vec<String> = (0..nlines).map(|i| format!("{}{}", i % 10, "x".repeat(filler - 1))).collect();
+        let want: Option<(&str, bool)> = match place {
+            0 => { ls[0] = "//# sourceMappingURL=first.map".into(); Some(("first.map", false)) }
+            1 => { ls[nlines / 2] = "//@ sourceMappingURL=middle.map".into(); Some(("middle.map", true)) }
+            2 => { ls[nlines - 1] = "//# sourceMappingURL=last.map".into(); Some(("last.map", false)) }
+            3 => { ls[1] = "//# sourceMappingURL=one.map".into(); ls[nlines - 1] = "//# sourceMappingURL=two.map".into(); Some(("one.map", false)) }
+            _ => None };
+        let text = ls.join("\n");
+        for via in ["slice", "reader"] {
+            let got = match guarded(|| if via == "slice" { locate_sourcemap_reference_slice(text.as_bytes()) } else { sourcemap::locate_sourcemap_reference(text.as_bytes()) }) { Ok(Ok(g)) => g, o => return r("discover", bound, cases, Some(format!("locate_sourcemap_reference ({via}) on a text of {} bytes: {:?}", text.len(), o.map(|x| x.map(|_| ()).map_err(|e| e.to_string()))))) };
+            let g2 = got.as_ref().map(|x| match x { SourceMapRef::Ref(u) => (u.as_str(), false), SourceMapRef::LegacyRef(u) => (u.as_str(), true) });
+            if g2 != want { return r("discover", bound, cases, Some(format!("text of {} bytes in lines of {filler} bytes, reference comment placement #{place} ({via}): discovered {g2:?}, the first line beginning with a sourceMappingURL comment gives {want:?}", text.len()))); }
+        }
     } } }
     for ntok in 0..3u32 { for root in [None, Some("r")] { for pad in 0..4usize { for blank in ["", " "] {
         cases += 1;
